@@ -21,6 +21,11 @@ for f in sorted(glob.glob('/verif/evidence/*.json')):
     jsonschema.validate(json.load(open(f)), es); n += 1
 print("manifest valid; %d evidence files valid" % n)
 PY
-if [ "$1" != "nocorpus" ]; then python3 tools/eval_corpus.py all 2>&1 | tail -3; fi
+if [ "$1" != "nocorpus" ]; then
+  out=$(python3 tools/eval_corpus.py all 2>&1 | tail -3); echo "$out"
+  echo "$out" | grep -q "raising alarms: \[\]$" || rc=1
+  echo "$out" | grep -q "missed: \[\]$" || rc=1
+  echo "$out" | grep -q "expected rule missing for: \[\] ; benign mutants raising alarms: \[\]$" || rc=1
+fi
 echo "regress rc=$rc"
 exit $rc
